@@ -6,6 +6,7 @@ import (
 	"fmt"
 	"io"
 	"strings"
+	"time"
 
 	"google.golang.org/grpc"
 	"google.golang.org/protobuf/proto"
@@ -31,7 +32,7 @@ func c16(tier string) []*explore.Scenario {
 		out = append(out, c16RPC("2unary", pre, bound), c16RPC("unary+stream", pre, bound), c16RPC("2streams", pre, bound-0))
 	}
 	out = append(out, c16RPC("payloads", true, 0))
-	out = append(out, c16Burst(12, 0), c16Burst(50, 0))
+	out = append(out, c16Burst(12, 0), c16Burst(50, 0), c16Burst(24, 1))
 	return out
 }
 
@@ -246,7 +247,7 @@ func c16RPC(load string, preAttach bool, bound int) *explore.Scenario {
 func c16Burst(n, bound int) *explore.Scenario {
 	fam := "C16/burst"
 	return &explore.Scenario{
-		Name: fmt.Sprintf("C16/burst/n=%d", n), Family: fam, Prop: "C16", Bound: bound,
+		Name: fmt.Sprintf("C16/burst/n=%d/d=%d", n, bound), Family: fam, Prop: "C16", Bound: bound, Horizon: time.Minute, SelectCost: true,
 		Run: func() {
 			w := env.NewWorld()
 			env.MsgSize = 0
@@ -281,10 +282,13 @@ func c16Burst(n, bound int) *explore.Scenario {
 				env.CRecvAll(r, cs)
 				r.CDone = true
 			})
-			vsched.Quiesce()
+			vsched.Quiesce() // no time passes while the receiver is stalled
 			close(release)
-			vsched.Quiesce()
+			vsched.QuiesceTime()
 			vsched.Obs("sent=%d received=%d end=%s drops=%d", len(r.HSent), len(r.CRecv), env.ErrStr(r.CErr), len(vsched.DefaultsTaken()))
+			if !subseq(r.CRecv, r.HSent) {
+				vsched.Fail(fam+"|reordered", "the proxy delivered a relayed stream's messages out of order: sent %v, received %v", r.HSent, r.CRecv)
+			}
 			if !r.CDone {
 				return // lost its end-of-stream too: not reported complete (C16 says nothing about that)
 			}
